@@ -84,7 +84,7 @@ def run(pid, tier):
         path = os.path.join(work, "inputs.txt")
         with open(path, "w") as f:
             f.write("\n".join(lines) + "\n")
-        tiers = ["pinned"] if tier == "quick" else ["pinned", "debug"]
+        tiers = (["pinned"] if tier == "quick" else ["pinned", "debug"]) + vlib.isa_tier(LIB)
         traces, cmds = [], []
         for t in tiers:
             drv = vlib.build_driver("drv_hostile", t, LIB, **BUILD)
